@@ -472,31 +472,84 @@ func checkC12(c *Ctx) {
 		want := map[string]string{"int64": "Int", "float64": "Float", "string": "String", "bool": "Bool"}
 		astp := t.SSA[pAst]
 		got := map[string]string{}
-		// dtype is a phi of constants, one per type-switch arm; recover arm → constant by the controlling assertion
-		allInstrs(grokF, func(in ssa.Instruction) {
-			ph, ok := in.(*ssa.Phi)
-			if !ok || namedOf(ph.Type()) != "ast.DType" {
-				return
+		// dtype is a phi of constants, one per type-switch arm; recover arm → constant by the controlling assertion.
+		// The mapping may live in Grok or in the same-package helpers it calls (two levels): there it may also be a
+		// `return ast.K, …` per arm.
+		scope := []*ssa.Function{grokF}
+		for lvl := 0; lvl < 2; lvl++ {
+			for _, g := range append([]*ssa.Function{}, scope...) {
+				allInstrs(g, func(in ssa.Instruction) {
+					if call, ok := in.(*ssa.Call); ok {
+						if h := call.Call.StaticCallee(); h != nil && h.Pkg == grokF.Pkg && len(h.Blocks) > 0 {
+							dup := false
+							for _, x := range scope {
+								if x == h {
+									dup = true
+								}
+							}
+							if !dup {
+								scope = append(scope, h)
+							}
+						}
+					}
+				})
 			}
-			for i, e := range ph.Edges {
-				cv, ok := e.(*ssa.Const)
-				if !ok {
-					continue
+		}
+		tagName := func(cv *ssa.Const) string {
+			for _, n := range []string{"Int", "Float", "String", "Bool", "Nil"} {
+				if v, _ := constInt(astp.Const(n).Value); constStr(cv) == fmt.Sprint(v) {
+					return n
 				}
-				pred := ph.Block().Preds[i]
-				for _, ec := range append(controlling(pred), edgeInto(pred, ph.Block())...) {
+			}
+			return ""
+		}
+		for _, g := range scope {
+			allInstrs(g, func(in ssa.Instruction) {
+				ret, ok := in.(*ssa.Return)
+				if !ok || len(ret.Results) == 0 || namedOf(ret.Results[0].Type()) != "ast.DType" {
+					return
+				}
+				cv, ok := ret.Results[0].(*ssa.Const)
+				if !ok {
+					return
+				}
+				for _, ec := range controlling(ret.Block()) {
 					if ex, ok := ec.Cond.(*ssa.Extract); ok && ec.Pol {
 						if ta, ok := ex.Tuple.(*ssa.TypeAssert); ok {
-							for _, n := range []string{"Int", "Float", "String", "Bool", "Nil"} {
-								if v, _ := constInt(astp.Const(n).Value); constStr(cv) == fmt.Sprint(v) {
-									got[typeShort(ta.AssertedType)] = n
+							if n := tagName(cv); n != "" {
+								got[typeShort(ta.AssertedType)] = n
+							}
+						}
+					}
+				}
+			})
+		}
+		for _, grokF := range scope {
+			allInstrs(grokF, func(in ssa.Instruction) {
+				ph, ok := in.(*ssa.Phi)
+				if !ok || namedOf(ph.Type()) != "ast.DType" {
+					return
+				}
+				for i, e := range ph.Edges {
+					cv, ok := e.(*ssa.Const)
+					if !ok {
+						continue
+					}
+					pred := ph.Block().Preds[i]
+					for _, ec := range append(controlling(pred), edgeInto(pred, ph.Block())...) {
+						if ex, ok := ec.Cond.(*ssa.Extract); ok && ec.Pol {
+							if ta, ok := ex.Tuple.(*ssa.TypeAssert); ok {
+								for _, n := range []string{"Int", "Float", "String", "Bool", "Nil"} {
+									if v, _ := constInt(astp.Const(n).Value); constStr(cv) == fmt.Sprint(v) {
+										got[typeShort(ta.AssertedType)] = n
+									}
 								}
 							}
 						}
 					}
 				}
-			}
-		})
+			})
+		}
 		for gt, tag := range want {
 			r.Ob("CAPTURE-TYPES", "grok capture of Go type "+gt, t.Pos(grokF.Pos()), got[gt] == tag, fmt.Sprintf("tagged %q, must be %q", got[gt], tag))
 		}
@@ -507,39 +560,63 @@ func checkC12(c *Ctx) {
 		r.Fn(relName(th))
 		okIdx := true
 		n := 0
+		// TimestampHandle itself, or the helper it hands tz to
+		type tzCtx struct {
+			g  *ssa.Function
+			tz *ssa.Parameter
+		}
+		tzs := []tzCtx{{th, th.Params[1]}}
 		allInstrs(th, func(in ssa.Instruction) {
-			ix, ok := in.(*ssa.Index)
-			if !ok || path(ix.X) != th.Params[1].Name() {
-				return
-			}
-			n++
-			g := false
-			for _, ec := range controlling(ix.Block()) {
-				s := ec.String()
-				if strings.Contains(s, th.Params[1].Name()+` != ""`) && !strings.HasPrefix(s, "!(") || strings.Contains(s, th.Params[1].Name()+` == ""`) && strings.HasPrefix(s, "!(") {
-					g = true
-				}
-			}
-			if !g {
-				okIdx = false
-			}
-		})
-		r.Ob("TIMEZONE", "TimestampHandle reads tz[0] only for a non-empty zone", t.Pos(th.Pos()), okIdx && n > 0, fmt.Sprintf("%d index sites", n))
-		// a +/- zone not in the table is an error
-		okTbl := false
-		allInstrs(th, func(in ssa.Instruction) {
-			if lk, ok := in.(*ssa.Lookup); ok && lk.CommaOk && strings.Contains(path(lk.X), "timezoneList") {
-				for _, b := range th.Blocks {
-					if iff, ok := b.Instrs[len(b.Instrs)-1].(*ssa.If); ok {
-						if ex, ok := iff.Cond.(*ssa.Extract); ok && ex.Tuple == ssa.Value(lk) && ex.Index == 1 {
-							if rejecting(b.Succs[1]) {
-								okTbl = true
-							}
+			if call, ok := in.(*ssa.Call); ok {
+				if h := call.Call.StaticCallee(); h != nil && h.Pkg == th.Pkg && len(h.Blocks) > 0 {
+					for k, a := range call.Call.Args {
+						if a == ssa.Value(th.Params[1]) && k < len(h.Params) {
+							tzs = append(tzs, tzCtx{h, h.Params[k]})
 						}
 					}
 				}
 			}
 		})
+		for _, tc := range tzs {
+			th := tc.g
+			tzName := tc.tz.Name()
+			allInstrs(th, func(in ssa.Instruction) {
+				ix, ok := in.(*ssa.Index)
+				if !ok || path(ix.X) != tzName {
+					return
+				}
+				n++
+				g := false
+				for _, ec := range controlling(ix.Block()) {
+					s := ec.String()
+					if strings.Contains(s, tzName+` != ""`) && !strings.HasPrefix(s, "!(") || strings.Contains(s, tzName+` == ""`) && strings.HasPrefix(s, "!(") {
+						g = true
+					}
+				}
+				if !g {
+					okIdx = false
+				}
+			})
+		}
+		r.Ob("TIMEZONE", "TimestampHandle reads tz[0] only for a non-empty zone", t.Pos(th.Pos()), okIdx && n > 0, fmt.Sprintf("%d index sites", n))
+		// a +/- zone not in the table is an error
+		okTbl := false
+		for _, tc := range tzs {
+			th := tc.g
+			allInstrs(th, func(in ssa.Instruction) {
+				if lk, ok := in.(*ssa.Lookup); ok && lk.CommaOk && strings.Contains(path(lk.X), "timezoneList") {
+					for _, b := range th.Blocks {
+						if iff, ok := b.Instrs[len(b.Instrs)-1].(*ssa.If); ok {
+							if ex, ok := iff.Cond.(*ssa.Extract); ok && ex.Tuple == ssa.Value(lk) && ex.Index == 1 {
+								if rejecting(b.Succs[1]) {
+									okTbl = true
+								}
+							}
+						}
+					}
+				}
+			})
+		}
 		r.Ob("TIMEZONE", "TimestampHandle rejects a numeric zone that is not in the zone table", t.Pos(th.Pos()), okTbl, "unknown time zone ⇒ error (the point keeps its time, a note is written)")
 	}
 }
@@ -726,6 +803,22 @@ func freshStack(v ssa.Value) bool {
 // freshRootFrame: f assigns, with no condition, a newly allocated Stack to both stackHeader and stackCur of a task
 // (stackCur may be given the stackHeader just assigned).
 func freshRootFrame(f *ssa.Function) bool {
+	if freshRootFrameDirect(f) {
+		return true
+	}
+	// or an unconditional call to a same-package helper that does it
+	ok := false
+	allInstrs(f, func(in ssa.Instruction) {
+		if call, isC := in.(*ssa.Call); isC && len(controlling(call.Block())) == 0 {
+			if g := call.Call.StaticCallee(); g != nil && g != f && g.Pkg == f.Pkg && len(g.Blocks) > 0 && freshRootFrameDirect(g) {
+				ok = true
+			}
+		}
+	})
+	return ok
+}
+
+func freshRootFrameDirect(f *ssa.Function) bool {
 	hdr, cur := false, false
 	var hdrStore *ssa.Store
 	allInstrs(f, func(in ssa.Instruction) {
